@@ -227,7 +227,7 @@ def check_pass(ctx, F, fn, pr, ps, rule, tokens_local_pred):
     # pushes / resets / opens inside the loop (not in nested loops)
     pushes, resets, opens, other_S = [], [], [], []
     for bi, t in fn.calls():
-        if bi in inner_blocks and bi in cfg.reachable and t["callee"].get("name") == "push" and tokens_local_pred(pr.operand(t["args"][0])):
+        if bi in inner_blocks and bi in cfg.reachable and t["callee"].get("name") == "push" and tokens_local_pred(fn, t):
             pushes.append(bi)
     for (db, si, k, payload) in pr.defs.get(ps.S, []):
         if db not in inner_blocks:
@@ -242,6 +242,10 @@ def check_pass(ctx, F, fn, pr, ps, rule, tokens_local_pred):
             other_S.append(db)
     if other_S:
         problems.append("the run-start variable receives something other than None / Some(current rank)")
+    for l_any in [lp] + [l2 for l2 in L.for_loops(fn, pr) if lp.header in l2.body and l2 is not lp]:
+        ee = early_exits(fn, l_any)
+        if ee:
+            problems.append(f"the pass can leave its loop early (line {fn.blocks[ee[0][0]]['line']}): later rank pairs of the row are never written")
     # ---- T1: closing ------------------------------------------------------------------------------
     close_edges = [e for e in C_none if I.guarded_by(fn, e[0], S_some, start=header)] + \
                   [e for e in W_ne if I.guarded_by(fn, e[0], S_some, start=header)]
@@ -351,7 +355,7 @@ def check_pass(ctx, F, fn, pr, ps, rule, tokens_local_pred):
                 join = others[0]
         region = I.reachable_avoiding(fn, [], start=tgt, removed_blocks=[join] if join is not None else [])
         for bi, t in fn.calls():
-            if bi in region and t["callee"].get("name") == "push" and tokens_local_pred(pr.operand(t["args"][0])):
+            if bi in region and t["callee"].get("name") == "push" and tokens_local_pred(fn, t):
                 after_pushes.append(bi)
         if join is not None:
             r = I.reachable_avoiding(fn, [], start=tgt, removed_blocks=after_pushes)
@@ -492,9 +496,10 @@ def run_rules(ctx, F, prefix):
     if len(passes) != 3 or sorted(p.variant for p in passes) != ["Ofsuit", "Pocket", "Suited"]:
         raise U(rule, f"expected a pocket, a suited and an offsuit pass, found {[p.variant for p in passes]}", fn)
     # the tokens vector: the Vec<HandRangeToken> local
-    def tokens_local(t):
-        s = P.strip(t)
-        return s[0] == "call" and s[1].startswith("std::vec::Vec") and s[1].endswith("::new") or s[0] == "agg" or s[0] in ("phi", "self")
+    def tokens_local(fn_, t):
+        a0 = t["args"][0]
+        pl = a0.get("move") or a0.get("copy")
+        return pl is not None and f"std::vec::Vec<{TOKEN}>" in fn_.local_ty(pl["l"])
     rule_d = prefix + ".row-domains"
     ctx.rule(rule_d, "pockets walk all ranks; suited/offsuit rows walk high in Ace..=Trey and kickers next(high)..=Deuce; pass order pockets, suited, offsuit, leftovers")
     ok_dom = True
@@ -581,6 +586,22 @@ def run_rules(ctx, F, prefix):
     except Unrecognised as e:
         ctx.unrecognised(prefix + ".leftovers-pass", e.msg, e.fn, e.line)
     return passes
+
+
+def early_exits(fn, lp):
+    """edges leaving the loop other than the exhaustion edge of its own `next()` test (and diverging blocks)"""
+    out = []
+    sw = fn.blocks[lp.next_block]["term"]["to"]
+    for b in sorted(lp.body):
+        for lab, tgt in fn.cfg.succ_edges[b]:
+            if tgt in lp.body:
+                continue
+            if b == sw and tgt == lp.exit_block:
+                continue
+            if fn.blocks[tgt]["term"]["k"] == "unreachable":
+                continue
+            out.append((b, tgt))
+    return out
 
 
 def range_ctor_of(lp):
@@ -680,6 +701,10 @@ def check_leftovers(ctx, F, fn, pr, prefix, passes):
             r = I.reachable_avoiding(fn, [], start=tgt, removed_blocks=[bi])
             if any(t in r for t in tails):
                 problems.append("a leftover combo that is present is not always emitted")
+    for lp in encl:
+        if early_exits(fn, lp):
+            problems.append(f"the leftover loops can stop early (line {fn.blocks[early_exits(fn, lp)[0][0]]['line']}): later leftover combos are dropped")
+            break
     # after the rank-pair passes
     for ps in passes:
         if encl and not (encl[0].header in fn.cfg.reach_from(ps.loop.exit_block) and ps.loop.header not in fn.cfg.reach_from(encl[0].exit_block)):
